@@ -50,6 +50,10 @@ impl<'a> Gen<'a> {
         if self.rng.chance(1, 6) {
             named.push("Pacific/Apia".into());
         }
+        // a zone that has days without a local midnight (start-of-day fallback)
+        if self.rng.chance(1, 4) && !self.image.midnight_gap_zones.is_empty() {
+            named.push(self.rng.pick(&self.image.midnight_gap_zones).clone());
+        }
         let mut zones = named.clone();
         // always mixed with a fixed-offset zone, an unknown and a wrong-case name
         zones.push(self.rng.pick(&["+05:30", "-03:00", "+00:00", "Z"]).to_string());
@@ -74,6 +78,13 @@ impl<'a> Gen<'a> {
         let sub = *self.rng.pick(&SUBS);
         let r = self.rng.below(100);
         let tr: &[i64] = self.image.zone(zone).map(|z| z.transitions.as_slice()).unwrap_or(&[]);
+        let gaps: &[i64] = self.image.zone(zone).map(|z| z.midnight_gaps.as_slice()).unwrap_or(&[]);
+        if r < 25 && !gaps.is_empty() {
+            // on, just before or just after a day whose midnight is skipped
+            let t = *self.rng.pick(gaps) as i128;
+            let delta = self.rng.range(-30 * 3600, 30 * 3600) as i128;
+            return ((t + delta) * 1_000_000_000 + sub).clamp(-NS_MAX, NS_MAX);
+        }
         if r < 60 && !tr.is_empty() {
             // modern transitions more often than 19th-century ones
             let idx = if self.rng.chance(2, 3) && tr.len() > 8 {
